@@ -1325,7 +1325,15 @@ pub fn c15(tier: &str, seed: u64) -> Vec<Case> {
         // the property: exactly the advertised instances, nothing of the discoverer's own or of foreign services
         let want = sorted(advertised.iter().map(|(n, i)| inst_text(i, n)).collect());
         let got = sorted(found.iter().map(|i| inst_text(i, &i.unescaped_instance_name())).collect());
-        if want != got { c = c.fail(if has_empty_key { "empty-attribute-key" } else { "discovery-differs" }, format!("advertised {} discovered {}", want, got)); }
+        if want != got {
+            // with an empty key in play the recorded finding explains a difference in the attributes only: the same comparison
+            // without attributes must still agree (names, addresses, ports), or it is another failure
+            let strip = |t: &str| t.split(" attrs ").next().unwrap_or(t).to_string();
+            let want_core = sorted(advertised.iter().map(|(n, i)| strip(&inst_text(i, n))).collect());
+            let got_core = sorted(found.iter().map(|i| strip(&inst_text(i, &i.unescaped_instance_name()))).collect());
+            if has_empty_key && want_core == got_core { c = c.fail_if_nothing_else("empty-attribute-key", format!("advertised {} discovered {}", want, got)); }
+            else { c = c.fail("discovery-differs", format!("advertised {} discovered {}", want, got)); }
+        }
         if it % 50 == 0 { c = c.tag("sample"); }
         // the reports on the on_discovery channel: every announcement is reported, through the std channel
         // of the sync flavour and through a tokio channel of capacity 1 whose reader is slow (the sender
